@@ -199,7 +199,7 @@ def package(text, pack, tmpdir):
         last = i == len(pieces) - 1
         ends = pack.get("end", [])
         if i < len(ends) and ends[i] and not last:
-            body += nl + "End"
+            body += nl + ("End", "End", "  End", "End   # end of this file", "End#x", "End\t#  Decay q")[(len(piece) + i) % 6]
         nls = pack.get("newline", [])
         if (nls[i] if i < len(nls) else True) and (not last or pack.get("last_newline", True)):
             body += nl
